@@ -26,7 +26,8 @@ def c07_r2(ctx):
     ctx.saw(dd)
     A = pm.Alpha(dd)
     sts = pm.stmts_of(dd.node)
-    ctx.ob(dd, A.has(sts, "segment, segdocnum = self._segment_and_docnum(docnum)") and A.has(sts, "segment.delete_document(segdocnum, delete=delete)"),
+    ctx.ob(dd, A.has(sts, "segment, segdocnum = self._segment_and_docnum(docnum)") and
+           (A.has(sts, "segment.delete_document(segdocnum, delete=delete)") or A.has(sts, "segment.delete_document(segdocnum, delete)")),
            "delete_document marks the segment-local number on the owning segment")
     sd = prog.method("writing.SegmentWriter", "_segment_and_docnum", inherited=False)
     # (segment, local docnum) = (self.segments[I], docnum - self._doc_offsets[I]) with one and the same index I
@@ -62,7 +63,10 @@ def c07_r2(ctx):
         f = seg.methods.get(m)
         if f is None:
             raise AnalysisError("W3Segment.%s vanished" % m)
-        ctx.ob(f, want in norm.stmt_text(f.node), "W3Segment.%s() reads the same deleted set" % m)
+        # (through a local alias of the set as well: `deleted = self._deleted`)
+        rvals = [norm.deep_canon(r.value, f.node) for r in returns_of(f) if r.value is not None]
+        wantc = norm.canon(norm.parse_expr(want))
+        ctx.ob(f, any(wantc in rv for rv in rvals), "W3Segment.%s() reads the same deleted set" % m, detail=str(rvals))
     tw = prog.method("index.TOC", "write", inherited=False)
     T = pm.Alpha(tw)
     ctx.ob(tw, T.has(pm.stmts_of(tw.node), "stream.write_pickle(self.segments)") and T.has(pm.stmts_of(tw.node), "stream = storage.create_file(tempfilename)"),
@@ -155,33 +159,54 @@ def c07_r4(ctx):
     f = prog.method("writing.IndexWriter", "delete_by_query", inherited=False)
     ctx.saw(f)
     loops = [n for n in ast.walk(f.node) if isinstance(n, ast.For)]
-    ok = False
-    A = pm.Alpha(f)
-    if len(loops) == 1:
-        lp = loops[0]
-        # the searcher iterated is the caller's or self.searcher()
-        dq = [c for c in norm.calls_in(f.node) if norm.call_name(c) == "docs_for_query"]
-        svals = [norm.canon(v) if v is not None else "?" for v in norm.assigned_names(f.node).get(norm.canon(norm.receiver(dq[0])) if len(dq) == 1 else "", [])]
-        dels = [st for st in lp.body if A.eq(st, "self.delete_document(docnum)")] if A.eq(lp.target, "docnum") else []
-        incs = [st for st in ast.walk(f.node) if isinstance(st, ast.AugAssign)]
+    # one loop over `s` (the caller's searcher or self.searcher()), or one loop per case: every loop must have the shape
+    ok = bool(loops)
+    sources = set()
+    an = norm.assigned_names(f.node)
+    for lp in loops:
+        A = pm.Alpha(f)
+        it = lp.iter
+        tgt = lp.target
         enum_form = False
-        if isinstance(lp.iter, ast.Call) and norm.call_name(lp.iter) == "enumerate" and isinstance(lp.target, ast.Tuple) and len(lp.target.elts) == 2:
+        if isinstance(it, ast.Call) and norm.call_name(it) == "enumerate" and isinstance(tgt, ast.Tuple) and len(tgt.elts) == 2:
             # for count, docnum in enumerate(<docs>, 1): delete_document(docnum)   (count holds the number of iterations)
-            src = norm.inline_defs(lp.iter.args[0], f.node) if lp.iter.args else None
-            start1 = (len(lp.iter.args) == 2 and norm.canon(lp.iter.args[1]) == "1") or any(k.arg == "start" and norm.canon(k.value) == "1" for k in lp.iter.keywords)
-            A.eq(lp.target.elts[0], "count")
-            A.eq(lp.target.elts[1], "docnum")
-            dels = [st for st in lp.body if A.eq(st, "self.delete_document(docnum)")]
-            enum_form = src is not None and A.eq(src, "s.docs_for_query(q, for_deletion=True)") and start1 and len(dels) == 1 and not incs
-        ok = (enum_form or (A.eq(lp.iter, "s.docs_for_query(q, for_deletion=True)") and len(dels) == 1 and
-                            len(incs) == 1 and incs[0] in lp.body and A.eq(incs[0], "count += 1"))) and \
-            not any(isinstance(x, (ast.Continue, ast.Break, ast.Return)) for x in ast.walk(lp)) and \
-            A.has(pm.stmts_of(f.node), "count = 0") and sorted(svals) == ["searcher", "self.searcher()"]
-    rets = [r.value for r in returns_of(f)]
-    ctx.ob(f, ok and len(rets) == 1 and A.eq(rets[0], "count"), "for docnum in docs_for_query(q, for_deletion=True): delete_document(docnum); count += 1; return count")
+            start1 = (len(it.args) == 2 and norm.canon(it.args[1]) == "1") or any(k.arg == "start" and norm.canon(k.value) == "1" for k in it.keywords)
+            A.eq(tgt.elts[0], "count")
+            tgt = tgt.elts[1]
+            it = norm.inline_defs(it.args[0], f.node) if it.args else None
+            enum_form = start1
+        if it is None or not isinstance(it, ast.Call) or norm.call_name(it) != "docs_for_query":
+            ok = False
+            continue
+        recv = norm.receiver(it)
+        rtext = norm.canon(recv)
+        if isinstance(recv, ast.Name) and recv.id in an and not (recv.id in f.params):
+            sources |= set(norm.canon(v) if v is not None else "?" for v in an[recv.id])
+        else:
+            sources.add(rtext)
+        m_, probs = bind_args(it, prog.method("searching.Searcher", "docs_for_query", inherited=False))
+        good_args = bool(m_) and norm.canon(m_.get("q")) == f.params[1] and norm.canon(m_.get("for_deletion")) == "True"
+        if not (good_args and A.eq(tgt, "docnum")):
+            ok = False
+            continue
+        dels = [st for st in lp.body if A.eq(st, "self.delete_document(docnum)")]
+        incs = [st for st in ast.walk(lp) if isinstance(st, ast.AugAssign)]
+        counted = enum_form and not incs or (not enum_form and len(incs) == 1 and incs[0] in lp.body and A.eq(incs[0], "count += 1"))
+        if len(dels) != 1 or not counted or any(isinstance(x, (ast.Continue, ast.Break, ast.Return)) for x in ast.walk(lp)):
+            ok = False
+        if not A.has(pm.stmts_of(f.node), "count = 0"):
+            ok = False
+        rets = [r.value for r in returns_of(f)]
+        if not rets or not all(A.eq(r, "count") for r in rets):
+            ok = False
+    ok = ok and sources == {"searcher", "self.searcher()"}
+    ctx.ob(f, ok, "for docnum in docs_for_query(q, for_deletion=True): delete_document(docnum); count += 1; return count",
+           detail="searchers iterated: %s" % sorted(sources))
     dt = prog.method("writing.IndexWriter", "delete_by_term", inherited=False)
     rets = [norm.inline_defs(r.value, dt.node) for r in returns_of(dt) if r.value is not None]
-    ctx.ob(dt, len(rets) == 1 and norm.canon(rets[0]) == "self.delete_by_query(Term(fieldname, text), searcher=searcher)", "delete_by_term = delete_by_query(Term(fieldname, text))",
+    ctx.ob(dt, len(rets) == 1 and norm.canon(rets[0]) in ("self.delete_by_query(Term(fieldname, text), searcher=searcher)",
+                                                           "self.delete_by_query(Term(fieldname, text), searcher)"),
+           "delete_by_term = delete_by_query(Term(fieldname, text))",
            detail=str([norm.canon(r) for r in rets]))
     dq = prog.method("searching.Searcher", "docs_for_query", inherited=False)
     D = pm.Alpha(dq)
